@@ -71,7 +71,7 @@ PROPS["C18"] = {
 
 PROPS["C15"] = {
     "modules": ["TaffyVerif.Props.C15", "TaffyVerif.Props.C15Pass", "TaffyVerif.Props.C15Link", "TaffyVerif.Props.C02", "TaffyVerif.Props.C15Eval",
-                "TaffyVerif.Props.C15Refine"],
+                "TaffyVerif.Props.C15Refine", "TaffyVerif.Props.C15Mut"],
     "theorems": [
         "C15.facts", "Dirty.markDirty_spec", "C15.step_preserves_K", "C15.K_reachable", "C15.I_reachable",
         "C15.mutation_dirties_exactly", "C15.ancestors_dirty", "C15.already_dirty_noop",
@@ -102,6 +102,36 @@ PROPS["C15"] = {
         "C15Refine.eval_pass_preserves_K_all_trees", "C15Refine.eval_pass_cleans_all_trees",
         "C15Refine.eval_passes_K_all_trees", "C15Refine.ex3_pass_is_stream",
         "C15Refine.old_recompute_rigid", "C15Refine.ex4_flags", "C15Refine.old_recompute_too_rigid",
+        # the mutators on the evaluator's caches: mark_dirty with its early exit (Props/C15Mut.lean, Lemmas/EvalDirtyEdit*.lean)
+        "C15Mut.realDObs", "C15Mut.memoDObs", "C15Mut.real_emp_is_alreadyEmpty", "C15Mut.real_emp_is_isEmpty",
+        "C15Mut.absFT_realDObs", "C15Mut.OK_realDObs",
+        "EvalDirtyEdit.abs_markDirtyGo", "EvalDirtyEdit.go_OK_shape", "EvalDirtyEdit.go_eq_clearPath",
+        "EvalDirtyEdit.go_partial", "EvalDirtyEdit.go_restores", "EvalDirtyEdit.PathK_of_AB", "EvalDirtyEdit.Bx_of_B",
+        "C15Mut.markDirty_abs", "C15Mut.markDirty_rose_abs", "C15Mut.markDirty_rose_OK_shape",
+        "C15Mut.markDirtyFT_restores_KT", "C15Mut.markDirtyFT_preserves_KT", "C15Mut.markDirty_rose_preserves_K",
+        "C15Mut.markDirty_eq_clear_path_of_K", "C15Mut.markDirty_rose_eq_clear_path_of_K", "C15Mut.clearPath_is_Edit_setStyle",
+        "C15Mut.markDirty_rose_clear_path_partial", "C15Mut.markDirty_not_clear_path_under_hidden",
+        "C15Mut.rootPass_refines", "C15Mut.rootPass_K",
+        # flat Dirty.markDirty = markDirtyFT on the unfolding (Lemmas/EvalDirtyEditFlat.lean)
+        "C15Link.no_cycle", "C15Link.siblings_disjoint", "C15Link.unf_congr", "C15Link.flat_go",
+        "C15Mut.markDirty_flat_is_markDirtyFT", "C15Mut.markDirty_rose_is_flat",
+        # … and the whole chain for set_style / mark_dirty / passes: evaluator state <-> flat model along every history
+        "C15Link.flat_setHidden", "EvalDirtyEdit.abs_setHid", "C15Mut.flat_setStyle_eq", "C15Mut.markDirty_is_flat",
+        "C15Mut.style_is_flat", "C15Mut.pass_is_flat", "C15Mut.history_is_flat", "C15Mut.exT_corr",
+        # histories of mutators and passes on the evaluator's state (Lemmas/EvalDirtyEditHist.lean)
+        "EvalDirtyEdit.abs_style_ABx", "EvalDirtyEdit.abs_replace_ABx", "EvalDirtyEdit.PathK_of_ABx",
+        "EvalDirtyEdit.DirtyAt_clearPath", "EvalDirtyEdit.DirtyAt_go", "EvalDirtyEdit.DirtyAt_modifyAt", "EvalDirtyEdit.DirtyAt_init",
+        "C15Mut.hstep_inv", "C15Mut.hrun_inv", "C15Mut.history_refines", "C15Mut.history_pass_cleans",
+        "C15Mut.edit_dirties", "C15Mut.dirty_persists", "C15Mut.history_refines_dirty",
+        # C01's Edit steps = mutator + mark_dirty (Lemmas/EvalDirtyEditMut.lean)
+        "EvalDirtyEdit.stateModifyAt_clear", "EvalDirtyEdit.modify_raw", "EvalDirtyEdit.LM_style", "EvalDirtyEdit.LM_insert",
+        "EvalDirtyEdit.LM_remove", "EvalDirtyEdit.LM_replaceChild",
+        "C15Mut.markTarget_facts", "C15Mut.local_inv", "C15Mut.mutApply_preserves_K",
+        "C15Mut.markDirty_establishes_Edit", "C15Mut.markDirty_establishes_Edit_real",
+        "C15Mut.eval_PL_inv", "C15Mut.mut_history_eq", "C15Mut.history_independent_outputs_exact_mut",
+        "C15Mut.history_independent_outputs_exact_mut_real", "C15Mut.runHistoryMut_agree",
+        "C15Mut.history_independent_outputs_exact_mut_all_trees",
+        "C15Mut.ex5_trees", "C15Mut.hist5_calm", "C15Mut.ex5_flags",
     ],
     "harness": "C15", "driver": "C15", "monitor": False, "extra_ties": [("EVAL", "EVAL")], "extra_tie_cases": 4000,
     "rule": "random histories (4–33 ops) of every TaffyTree mutator (new_leaf[_with_context], set_style incl. display:none "
@@ -125,6 +155,16 @@ PROPS["C15"] = {
         "of the resolutions of the rose-tree pass (C15Refine.eval_root_pass_refines_all_trees, every style tree whose grid "
         "containers cannot panic: GridCalm); Model/DirtyPass.lean's recompute was made self-delimiting for this (a closing "
         "`done`): with the former definition the statement is false (C15Refine.old_recompute_too_rigid)",
+        "the MUTATORS are linked too (Props/C15Mut.lean): TaffyTree::mark_dirty with its AlreadyEmpty early exit is modelled on the "
+        "evaluator's real caches (markDirty_rose; the test is the is_empty field, strict cache invariant RealOKS), commutes with the "
+        "abstraction absFT (markDirty_rose_abs), and the flat model's Dirty.markDirty (parent pointers, fuel) is proved to be the same "
+        "function on the unfolding (markDirty_flat_is_markDirtyFT, markDirty_rose_is_flat): along every history of set_style / "
+        "mark_dirty / root passes the evaluator's flags ARE the flat model's flags (history_is_flat); under the invariant and with no "
+        "display:none proper ancestor the early exit equals clearing the whole ancestor path (markDirty_rose_eq_clear_path_of_K), "
+        "otherwise the caches of the display:none ancestor and above survive (markDirty_rose_clear_path_partial, witness "
+        "markDirty_not_clear_path_under_hidden = known finding c01-attach-under-clean-hidden); history_refines / history_refines_dirty / "
+        "history_pass_cleans: invariants, dirtiness of edited nodes and their ancestors between passes, cleanliness after a pass, for "
+        "every history of set_style / replace-child / mark_dirty / passes over GridCalm trees",
     ],
     "assumptions": ["mark_dirty's recursion is modelled with fuel (next+1); running out of fuel is an explicit outcome, "
                     "never observed; in a forest it cannot happen"],
@@ -860,7 +900,14 @@ _PAIRS_TRUSTED = [
 ]
 
 PROPS["C01"] = {
-    "modules": C01_EVAL_MODULES + EVALBLOCK_MODULES + EVALFLEX_MODULES + EVALGRID_MODULES + ["TaffyVerif.Props.C15", "TaffyVerif.Props.C15Pass", "TaffyVerif.Props.C15Refine"], "theorems": C01_EVAL_THEOREMS + EVALBLOCK_C01 + EVALFLEX_C01 + EVALGRID_C01 + ["C15.step_preserves_K", "C15.I_reachable", "C15Pass.pass_cleans", "C15Refine.eval_pass_preserves_K_all_trees", "C15Refine.eval_pass_cleans_all_trees"],  # PLACEHOLDER — C01's theorems (stamp_valid, transparency under HitAfterQuiet, …) to be added
+    "modules": C01_EVAL_MODULES + EVALBLOCK_MODULES + EVALFLEX_MODULES + EVALGRID_MODULES + ["TaffyVerif.Props.C15", "TaffyVerif.Props.C15Pass", "TaffyVerif.Props.C15Refine", "TaffyVerif.Props.C15Mut"], "theorems": C01_EVAL_THEOREMS + EVALBLOCK_C01 + EVALFLEX_C01 + EVALGRID_C01 + ["C15.step_preserves_K", "C15.I_reachable", "C15Pass.pass_cleans", "C15Refine.eval_pass_preserves_K_all_trees", "C15Refine.eval_pass_cleans_all_trees",
+        # the Edit steps of history_independent_outputs_exact are what the mutators + mark_dirty (early exit) do (Props/C15Mut.lean)
+        "C15Mut.memoDObs", "EvalDirtyEdit.go_eq_clearPath", "EvalDirtyEdit.stateModifyAt_clear", "EvalDirtyEdit.modify_raw",
+        "C15Mut.markDirty_eq_clear_path_of_K", "C15Mut.mutApply_preserves_K", "C15Mut.markDirty_establishes_Edit", "C15Mut.markDirty_establishes_Edit_real",
+        "C15Mut.eval_PL_inv", "C15Mut.mut_history_eq", "C15Mut.history_independent_outputs_exact_mut",
+        "C15Mut.history_independent_outputs_exact_mut_real", "C15Mut.history_independent_outputs_exact_mut_all_trees",
+        "C15Mut.markDirty_not_clear_path_under_hidden",
+        "C15Mut.markDirty_rose_clear_path_partial"],  # PLACEHOLDER — C01's theorems (stamp_valid, transparency under HitAfterQuiet, …) to be added
     "harness": "C01", "driver": "C01", "monitor": False, "extra_ties": [("EVAL", "EVAL"), ("FLEX", "FLEX"), ("GRID", "GRID")], "extra_tie_cases": 4000, "harness_timeout": 900,
     "rule": "random histories (5-25 ops) on ONE long-lived TaffyTree<Ctx> next to a mirror description: set_style (fresh / identical / "
             "display:none toggle), set_node_context, add_child / insert_child_at_index / replace_child_at_index with a newly generated or a "
